@@ -189,6 +189,26 @@ func c17Exec(x *Ctx) {
 		// writeReq sends a Twrite; half of the time the client does not wait and further requests follow it at once
 		writeReq := func(f uint32, off uint64, data []byte) *Recvd {
 			wm := &Msg{Type: Twrite, Fid: f, Offset: off, Count: uint32(len(data)), Data: data}
+			if len(data) >= 2 && r.Pct(30) {
+				// the same bytes as two Twrites on the fid, both in flight at once: each is a pwrite of its own
+				k := 1 + r.Intn(len(data)-1)
+				tag += 2
+				s1 := p.Write(&Msg{Type: Twrite, Tag: tag - 1, Fid: f, Offset: off, Count: uint32(k), Data: data[:k]})[0]
+				s2 := p.Write(&Msg{Type: Twrite, Tag: tag, Fid: f, Offset: off + uint64(k), Count: uint32(len(data) - k), Data: data[k:]})[0]
+				rt.YieldUntil(rt.SiteActor, func() bool { return p.EOF || (s1.Reply != nil && s2.Reply != nil) })
+				x.Probe("two-writes-in-flight-on-one-fid")
+				for i, s := range []*Sent{s1, s2} {
+					want := []int{k, len(data) - k}[i]
+					if s.Reply == nil || s.Reply.M == nil {
+						x.Violate("t0-stalled", "%s got no reply", s.M)
+						return nil
+					}
+					if s.Reply.M.Type != Rwrite || int(s.Reply.M.Count) != want {
+						return s.Reply
+					}
+				}
+				return &Recvd{M: &Msg{Type: Rwrite, Count: uint32(len(data))}}
+			}
 			if !r.Pct(50) {
 				return call(wm)
 			}
